@@ -46,5 +46,10 @@ theorem GenC12_server_disciplined : KmipGen.accessTable.all rowOk = true := by d
 theorem GenC12_Serve_skeleton : KmipGen.skel_Server_Serve = ExpectSkel.skel_Server_Serve := by decide
 theorem GenC12_Shutdown_skeleton : KmipGen.skel_Server_Shutdown = ExpectSkel.skel_Server_Shutdown := by decide
 theorem GenC12_getDoneChan_skeleton : KmipGen.skel_Server_getDoneChan = ExpectSkel.skel_Server_getDoneChan := by decide
+/-- a Client touches its own fields and what crypto/tls returns for it, nothing it was merely handed (the caller's tls.Config
+    may be shared by any number of Clients) -/
+theorem GenC12_Client_Connect_skeleton : KmipGen.skel_Client_Connect = ExpectSkel.skel_Client_Connect := by decide
+theorem GenC12_Client_Send_skeleton : KmipGen.skel_Client_Send = ExpectSkel.skel_Client_Send := by decide
+theorem GenC12_Client_Close_skeleton : KmipGen.skel_Client_Close = ExpectSkel.skel_Client_Close := by decide
 
 end Kmip
